@@ -177,6 +177,18 @@ def build(ctx):
                detail=bad[:5], witness=bad[:3], fn=f_pshelx)
 
     line_obligations(ctx)
+    # engine guard: the symbolic executor on concrete lines agrees with CPython
+    def engine_guard():
+        from pyvc.crosscheck import crosscheck
+        import chmpy.fmt.shelx as shx
+        Ig = ctx.interp()
+        crosscheck(ctx, Ig, ctx.fn("chmpy.fmt.shelx", "_parse_atom_line"), shx._parse_atom_line,
+                   [(("C", "H", "O"), "C1 1 0.123456789012 0.5 -0.25 11.0"), (("C", "Cl"), "Cl12 2 0.1 0.2 0.3"), (("N",), "N1 1 1.5 -2.25 0.000000000001 10.5 0.05")])
+        crosscheck(ctx, Ig, ctx.fn("chmpy.fmt.shelx", "_parse_cell"), shx._parse_cell, [("CELL 0.7 5.0 6.5 7.25 90 101.5 90",), ("CELL 0.71073 10 10 10 90 90 120",)])
+        crosscheck(ctx, Ig, ctx.fn("chmpy.fmt.shelx", "_parse_sfac"), shx._parse_sfac, [("SFAC C H O",), ("SFAC Cl",)])
+        crosscheck(ctx, Ig, ctx.fn("chmpy.fmt.shelx", "_parse_int"), shx._parse_int, [("LATT -1",), ("ZERR 4 0 0 0 0 0 0",)])
+    ctx.attempt("fmt.shelx/engine_guard", engine_guard)
+
     bounded(ctx)
 
 
